@@ -401,6 +401,35 @@ def check(F, R, tier="quick", props=("C04", "C15", "C05")):
                         st = r.args[0].fields.get("status") if isinstance(r, Var) and r.path in OK_PATHS and isinstance(r.args[0], Var) else None
                         ok = isinstance(st, Var) and st.path.endswith("::" + status)
                         R.ob("BRIDGE-EQUIV", key + ":verdict", ok, where_m, "Status::%s with options %s is reported as %r, expected a solution labelled %s" % (status, oname, st if st is not None else r, status))
+        if "C15" in props:
+            # the builder's MicroLP solver: options set one after the other, in either order, all reach the bridge
+            BS = "builder::solvers::microlp::Microlp"
+            SOLVE = "<builder::solvers::microlp::Microlp as builder::solvers::traits::Solver>::solve"
+            where_b = "packages/rooc/src/builder/solvers/microlp.rs"
+            if all(F.fn(x) is not None for x in (BS + "::new", BS + "::with_mip_gap", BS + "::with_time_limit", SOLVE)):
+                for x in (BS + "::new", BS + "::with_mip_gap", BS + "::with_time_limit", SOLVE):
+                    R.fn(x)
+                for oname, calls in (("gap-then-limit", (("with_mip_gap", 0.015), ("with_time_limit", dur))), ("limit-then-gap", (("with_time_limit", dur), ("with_mip_gap", 0.015))), ("gap-only", (("with_mip_gap", 0.015),)), ("limit-only", (("with_time_limit", dur),)),
+                                     ("gap-twice-then-limit", (("with_mip_gap", 0.5), ("with_mip_gap", 0.015), ("with_time_limit", dur)))):
+                    sv = I.call_fn(BS + "::new", [])
+                    for meth, val in calls:
+                        sv = I.call_fn(BS + "::" + meth, [sv, val])
+                    lm = build_model(I, md)
+                    mock.reset({"status": "Optimal", "objective": 3.0, "values": vals})
+                    r = I.call_fn(SOLVE, [sv, lm])
+                    n_runs += 1
+                    key = "builder-solver:%s" % oname
+                    so = mock.options
+                    if is_unknown(r) or is_unknown(sv) or not (mock.solved and isinstance(so, Var)):
+                        R.undecided("BRIDGE-EQUIV", key, where_b, "builder solver not evaluable: %r / options %r" % (r, so))
+                        continue
+                    want_gap = 0.015 if any(m_ == "with_mip_gap" for m_, _ in calls) else 0.0
+                    want_lim = any(m_ == "with_time_limit" for m_, _ in calls)
+                    tl = opt_value(so.fields.get("time_limit"))
+                    ok = num_eq(so.fields.get("mip_gap"), want_gap) and ((tl[0] == "some" and isinstance(tl[1], Var) and tl[1].fields == dur.fields) if want_lim else tl[0] == "none")
+                    R.ob("BRIDGE-EQUIV", key, ok, where_b, "Microlp::new()%s hands the solver mip_gap %r and time_limit %r" % ("".join(".%s(%s)" % (m_, "3 s" if m_ == "with_time_limit" else v_) for m_, v_ in calls), so.fields.get("mip_gap"), tl))
+            else:
+                R.undecided("BRIDGE-EQUIV", "builder-solver:anchor", where_b, "Microlp::new / with_mip_gap / with_time_limit / Solver::solve not found")
         if "C05" in props or "C15" in props:
             for err, want in (("Infeasible", "Infeasible"), ("Unbounded", "Unbounded"), ("InternalError", "Other"), ("InvalidOptions", "Other")):
                 for entry, where in ((MILP, where_m), (REAL, where_r)):
